@@ -289,7 +289,7 @@ def run_case(ctx, case):
                 s, _ = _eval(None, node[2], binds, True)
                 if s[0] == "ok" and shape_class(s[1]) in ("mat", "rank3"):
                     scan_mat = True
-        if scan_mat and d == "raises-on-numpy":
+        if scan_mat:
             sig = "compiler-only|%s:%s|contains-scan-of-matrix" % (d, exc)
         else:
             sig = "compiler-only|%s:%s|%s|%s" % (d, exc, E.name(sub) if sub else "?", ",".join(ops))
